@@ -41,7 +41,12 @@ def main():
             subprocess.check_call(["git", "-C", REPO, "apply", patch]); src = REPO
         else:
             shutil.copytree(os.path.join(REPO, "asmjit"), os.path.join(d, "asmjit"))
-            subprocess.check_call(["patch", "-s", "-p1", "-d", d, "-i", patch]); src = d
+            if subprocess.call(["patch", "-s", "-p1", "-d", d, "-i", patch], stdout=subprocess.DEVNULL) != 0:
+                # the code this change modifies has changed since (e.g. rewritten by the repair of a genuine defect)
+                print("%-48s [%s] patch does not apply to the current tree (see meta.json)" % (sid, prop))
+                shutil.rmtree(d, ignore_errors=True)
+                continue
+            src = d
         env = dict(os.environ, VERIF_REPO=src, VERIF_DIR=os.path.join(d, "verifdir"), VERIF_EVIDENCE_DIR=os.path.join(d, "evidence"))
         os.makedirs(env["VERIF_DIR"], exist_ok=True)
         t0 = time.time()
